@@ -6,6 +6,8 @@ mod ctx;
 mod iso;
 mod props;
 mod gen;
+mod refparse;
+mod strict;
 
 use ctx::{Ctx, Tier};
 
